@@ -1,6 +1,7 @@
 import Resolvo.MDet.Solve
 import Resolvo.Oracles
 import Resolvo.Abs.Decide
+import Resolvo.Render
 /-!
 # The checked model
 
@@ -26,12 +27,30 @@ deriving Repr, Inhabited
 /-- soft requirements that made it into the solution: the documented exemption applies to them -/
 def exemptOf (P : Problem) (sol : List Nat) : List Nat := P.soft.filter (fun s => sol.contains s)
 
+/-- the conflict graph of an Unsolvable answer: the exact model of `Conflict::graph` applied to the blamed clauses of the
+    accepted history -/
+def conflictGraphOf (U : Universe) (st : St) (conflict : List Nat) : Resolvo.Render.RG :=
+  Resolvo.Render.buildGraph U st.origins (conflict.map (fun id => (st.db.getD id default).kind))
+
+/-- the graph as the list of edges the C03 oracles read -/
+def graphEdges (g : Resolvo.Render.RG) : Resolvo.Graph.G :=
+  (Resolvo.Render.nodeEdges g).map (fun x => ⟨x.1, x.2.1, x.2.2⟩)
+
+/-- second and third sentence of C03, decided on the graph: every node reachable from the root, and the facts shown in
+    the graph alone (with one-solvable-per-package for forbid-joined nodes) refute the root -/
+def graphSelfContainedB (g : Resolvo.Render.RG) : Bool :=
+  Resolvo.Graph.reachableB (graphEdges g) g.nodes.toList && Resolvo.Graph.graphRefutes (graphEdges g)
+
 def checkOutcome (U : Universe) (P : Problem) (o : Outcome) (history : List Ev) : Checked :=
   match o with
   | .stop w => .stop w
   | .unsat c =>
     (match runOptD U P (absEvents history) with
-     | some st => if st.failed.isSome then .unsat c else .checkFailed "Unsolvable without a recorded root-level failure"
+     | some st =>
+       if st.failed.isNone then .checkFailed "Unsolvable without a recorded root-level failure"
+       else if !c.all (fun id => id < st.db.length) then .checkFailed "the conflict blames a clause that does not exist"
+       else if !graphSelfContainedB (conflictGraphOf U st c) then .checkFailed "the conflict graph is not a self-contained refutation (unreachable node, or the facts shown do not refute the root)"
+       else .unsat c
      | none => .checkFailed "history rejected by the abstract system (with the decision guard)")
   | .ok sol =>
     (match runOptD U P (absEvents history) with
